@@ -494,7 +494,9 @@ impl FixedMethod {
                         break;
                     }
 
-                    if index == 0 || chandra {
+                    // The vowel of the last syllable is its last character or
+                    // the one right before its trailing Chandrabindu.
+                    if index == 0 || (chandra && index == 1) {
                         vowel = true;
                         step += 1;
                         continue;
@@ -507,6 +509,9 @@ impl FixedMethod {
                         step += 1;
                         continue;
                     }
+                    break;
+                } else {
+                    // Any other character is not a part of the last syllable.
                     break;
                 }
             }
